@@ -1,33 +1,39 @@
-"""C13 (run-level clause only) -- runs never corrupt caller or logged data (engine: blocksim)."""
+"""C13 -- runs never corrupt caller or logged data (engine: blocksim); value semantics of the data types over aliasing histories (engine: dtypesim)."""
 from sim.core.base import rng_for, Result, EventLog
-from sim import blocksim, workloads, physics, oracles
+from sim import blocksim, workloads, physics, oracles, dtypesim
 
 PROP = 'C13'
 LEVEL = 'exploration'
 RULE = (
-    'CLAIMED CLAUSE ONLY: "a run never modifies the initial value object passed by the caller, and every solution it returns or logs '
+    'Run-level clause (60 % of the runs): "a run never modifies the initial value object passed by the caller, and every solution it returns or logs '
     'remains unchanged by later steps of the same run". A run is a history of one or more run() legs on one real controller_nonMPI '
     '(stub-physics restart/step-size histories of C06, real multi-level physics of C01 with soft faults, real adaptive SDC/RK runs of C09-B) '
     'with LogSolution / LogSolutionAfterIteration enabled; a spy on Hooks.add_to_stats keeps every logged array with its digest at logging '
     'time; digests of the caller value, of every returned value and of the end value object of every finished step are compared again after '
-    'the last leg. Non-trivial = at least two blocks or two legs; distinct = distinct digest.'
+    'the last leg. Data-type clause (40 %): a history of 8-19 operations (new, copy-construct, alias, binary / reflected operation, augmented '
+    'assignment, whole-buffer write, slice view, component view, write through a component view, abs) on a pool of five names over mesh, imex_mesh, '
+    'comp2_mesh, MeshDAE, particles.position, acceleration; after every operation type and bytes of every name are compared with a reference model '
+    'of plain numpy arrays carrying the stated semantics (fresh results, aliases identical, views share one buffer, copies independent, abs = max modulus); '
+    'no fault is injected in this part. Non-trivial = at least two blocks or two legs (runs) / more than two operations after the definitions (histories); distinct = distinct digest.'
 )
-COMPONENTS_REAL = ['controller_nonMPI.run/restart_block', 'Step.init_step', 'sweepers generic_implicit/imex_1st_order/explicit/Runge-Kutta (compute_end_point)', 'LogSolution, LogSolutionAfterIteration', 'BaseTransfer']
+COMPONENTS_REAL = ['mesh, MultiComponentMesh (imex_mesh, comp2_mesh, MeshDAE), particles.position, acceleration', 'controller_nonMPI.run/restart_block', 'Step.init_step', 'sweepers generic_implicit/imex_1st_order/explicit/Runge-Kutta (compute_end_point)', 'LogSolution, LogSolutionAfterIteration', 'BaseTransfer']
 COMPONENTS_STUB = ['none']
-ASSUMPTIONS = ['the data-type algebra clause of C13 (operator value semantics, copy construction, component views, abs) is NOT claimed: pure functions of their operands',
+ASSUMPTIONS = ['data-type clause: fault-free operation histories against a reference model (the weakest form of the technique); cupy/petsc/fenics/firedrake types and the particles/fields containers themselves are not driven',
                'aliasing alone is not reported, only observable change of bytes', 'MPI buffer clause: C08']
-PROBES = ['logged_arrays_checked', 'continuation_leg_on_same_controller', 'restart_at_later_slot', 'inplace_fault_on_initial_value', 'dae_inplace_sweeper']
+PROBES = ['augmented_assignment_on_aliased_name', 'augmented_assignment_on_object_with_base', 'write_through_component_view', 'copy_construct', 'logged_arrays_checked', 'continuation_leg_on_same_controller', 'restart_at_later_slot', 'inplace_fault_on_initial_value', 'dae_inplace_sweeper']
 HOOKS = ['LogSolution', 'LogSolutionAfterIteration']
 
 
 def plan(tier):
     if tier == 'thorough':
         return {'n': 200000, 'chunk': 200, 'timeout': 300, 'selftest': 40, 'budget_s': 3000, 'minimize_s': 300}
-    return {'n': 3000, 'chunk': 60, 'timeout': 300, 'selftest': 10, 'budget_s': 900, 'minimize_s': 120}
+    return {'n': 4200, 'chunk': 60, 'timeout': 300, 'selftest': 10, 'budget_s': 900, 'minimize_s': 120}
 
 
 def generate(seed, tier, index):
     r = rng_for(seed, PROP, index)
+    if r.random() < 0.4:
+        return dtypesim.generate(r)
     c = r.random()
     if c < 0.4:
         sc = workloads.history_config(r, hooks=HOOKS)
@@ -55,6 +61,8 @@ def generate(seed, tier, index):
 
 
 def execute(sc):
+    if sc.get('engine') == 'dtypesim':
+        return dtypesim.execute(sc)
     res, log = Result(), EventLog()
     tr = blocksim.run(sc, res, log)
     oracles.oracle_c13(tr, sc)
@@ -71,4 +79,6 @@ def execute(sc):
 
 
 def shrink(sc):
+    if sc.get('engine') == 'dtypesim':
+        return dtypesim.shrink(sc)
     return workloads.shrink_history(sc)
